@@ -12,7 +12,7 @@ REQUIRED += ["DaeVerif.C16.Props." + n for n in [
     "suppressed_failures_dont_count", "suppression_window",
     "callbacks_on_edges_only", "callbacks_on_edges_only_history",
     "groups_see_state",
-    "group_callbacks_are_edges", "random_policy_never_writes", "kernel_bit_partial", "kernel_bit_full_fails",
+    "group_callbacks_are_edges", "random_policy_never_writes", "kernel_bit",
     "kernel_key_injective", "kernel_key_slots",
     "reload_snapshot_drops_counters", "reload_hands_over_state", "reload_floor_leaves_selectable",
 ]]
@@ -20,9 +20,23 @@ REQUIRED += ["DaeVerif.C16.Props." + n for n in [
 PKG = "component/outbound/dialer"
 
 
+_MARKS = ["N[", " T[", " G[", " E[", " S[", " K[", " P["]
+
+
 def _fields(line):
-    """N[..] T[..] G[..] E[..] S[..] K[..] P[..] -> dict"""
-    return {m.group(1): m.group(2) for m in re.finditer(r"([A-Z])\[([^\]]*)\]", line)}
+    """N[..] T[..] G[..] E[..] S[..] K[..] P[..] -> dict (S contains nested brackets)"""
+    out, pos = {}, []
+    start = 0
+    for mk in _MARKS:
+        j = line.find(mk, start)
+        if j < 0:
+            return {m.group(1): m.group(2) for m in re.finditer(r"([A-Z])\[([^\]]*)\]", line)}
+        pos.append((mk.strip()[0], j + len(mk)))
+        start = j + len(mk)
+    for k, (name, a) in enumerate(pos):
+        b = (pos[k + 1][1] - len(_MARKS[k + 1])) if k + 1 < len(pos) else len(line)
+        out[name] = line[a:b].rstrip()[:-1] if line[a:b].rstrip().endswith("]") else line[a:b]
+    return out
 
 
 IDX = {"t": 4, "T": 4, "d": 2, "z": 2, "u": 6, "x": 6, "y": 6}
@@ -168,6 +182,8 @@ def run(ctx):
             start -= 1
         return op_lines[start:lineno]
 
+    checked, _ = impl_oracles(op_lines, impl_lines, lambda what, obj: ctx.report(what, obj), max_reports=3)
+    ctx.cov["implementation_side_oracles"] = checked
     for ln, op, im, mo in mism[:5]:
         if ln == 0:
             ctx.report(f"stream lengths differ: {op}", {"stream": "c16"})
@@ -179,8 +195,6 @@ def run(ctx):
                    {"stream": "c16", "line": ln, "op": op, "impl": im, "model": mo,
                     "scenario_ops": scenario_of(ln)[-400:],
                     "replay": "VERIF_SEED=%d ./check C16 %s" % (ctx.seed, ctx.tier)})
-    checked, _ = impl_oracles(op_lines, impl_lines, lambda what, obj: ctx.report(what, obj))
-    ctx.cov["implementation_side_oracles"] = checked
     for op, im in zip(op_lines, impl_lines):
         if op == "crash" or im.startswith("crash:"):
             ctx.report(f"real code panicked: {im[:300]}", {"op": op, "impl": im})
@@ -222,7 +236,6 @@ def run(ctx):
     ctx.assumptions += [
         "histories are generated (seeded): 1-4 nodes per generation sharing 0-2 proxy addresses, 0-4 groups per generation "
         "(policies min_last/min_avg/min_moving/random/fixed), up to ~110 events per scenario, reload generations included",
-        "AddLatency offsets and tolerances are non-negative and far below one hour (hypothesis LatOK of the kernel-bit theorems)",
     ]
     return ctx.finish(
         rule="one evaluation = one event line (probe/txn/tfail/forced/tok/suppress/tick/restore/inherit/floor/group/close) "
